@@ -301,6 +301,112 @@ theorem rp66_sample_stop_is_last_row (n s : Nat) (h : rp66RowsSample n s ≠ [])
   | none => simp [List.getLast?_eq_none_iff] at hl; exact absurd hl h
   | some y => simp
 
+/-! ## Negative steps (`start,stop,-k` are Python slices too: rows come out in reverse order) -/
+
+open TD.C04 in
+/-- **RP66V1, negative step**: the rows written are exactly the positions Python slicing selects, strictly decreasing. -/
+theorem rp66_rows_eq_python_neg (start stop step : Option Int) (n : Nat) (hst : step.getD 1 < 0) :
+    ∃ l, rp66RowsSlice start stop step n = .ok l ∧ (∀ i, i ∈ l ↔ pySelectedNeg start stop (step.getD 1) n i) ∧
+      l.Pairwise (· > ·) ∧ (∀ i ∈ l, 0 ≤ i ∧ i < n) :=
+  slice_indices_mem_iff_neg start stop step n hst
+
+open TD.C04 in
+/-- **RP66V1 STRT/STOP, negative step**: the indices whose X values are printed as STRT and STOP are the first and the
+last row actually written. -/
+theorem rp66_well_section_describes_rows_neg (start stop step : Option Int) (n : Nat) (hst : step.getD 1 < 0) :
+    ∃ l, rp66RowsSlice start stop step n = .ok l ∧
+      (l ≠ [] → ∃ f lst, sliceFirst start stop step n = .ok f ∧ l.head? = some f ∧
+                  rp66StopIndexSlice start stop step n = .ok lst ∧ l.getLast? = some lst) := by
+  have hadj := slice_adjust_neg start stop step n hst
+  refine ⟨rangeList (pyBoundNeg start ((n : Int) - 1) n) (pyBoundNeg stop (-1) n) (step.getD 1), ?_, ?_⟩
+  · unfold rp66RowsSlice sliceIndices; rw [hadj]
+  · intro hne
+    obtain ⟨y, hy⟩ : ∃ y, (rangeList (pyBoundNeg start ((n : Int) - 1) n) (pyBoundNeg stop (-1) n) (step.getD 1)).getLast? = some y := by
+      cases hl : (rangeList (pyBoundNeg start ((n : Int) - 1) n) (pyBoundNeg stop (-1) n) (step.getD 1)).getLast? with
+      | none => simp [List.getLast?_eq_none_iff] at hl; exact absurd hl hne
+      | some y => exact ⟨y, rfl⟩
+    refine ⟨pyBoundNeg start ((n : Int) - 1) n, y, ?_, ?_, ?_, hy⟩
+    · unfold sliceFirst; rw [hadj]
+    · -- the first generated index is the adjusted start
+      unfold rangeList at hne ⊢
+      cases hlen : rangeLen (pyBoundNeg start ((n : Int) - 1) n) (pyBoundNeg stop (-1) n) (step.getD 1) with
+      | zero => rw [hlen] at hne; simp at hne
+      | succ k => simp [List.range_succ_eq_map]
+    · unfold rp66StopIndexSlice
+      rw [sliceLast_neg _ _ _ _ hst]
+      unfold sliceIndices; rw [hadj]
+      simp [hy]
+
+open TD.C04 in
+/-- **BIT (and the slice handed to LIS), negative step, exactly**: the sliced rows are Python slicing from the clamped
+start down to `step * floor(stop' / step)` (the clamped stop rounded *up* to a multiple of |step|; `-1` for
+`stop' = step = -1`), that value being interpreted once more as a Python bound — a `-1` there means "the last element". -/
+theorem conv_rows_neg_unfold (start stop step : Option Int) (n : Nat) (hst : step.getD 1 < 0) :
+    convRowsSlice start stop step n =
+      sliceIndices (some (pyBoundNeg start ((n : Int) - 1) n))
+        (some (step.getD 1 * Int.fdiv (pyBoundNeg stop (-1) n) (step.getD 1))) (some (step.getD 1)) n := by
+  have hadj := slice_adjust_neg start stop step n hst
+  unfold convRowsSlice
+  rw [sliceLast_neg _ _ _ _ hst]
+  unfold sliceFirst sliceStep
+  rw [hadj]
+  simp only
+  congr 2
+  omega
+
+/-- Witnesses for the negative-step classes (known findings `C11-bit-negative-step-rows-lost`,
+`C11-lis-negative-step-unsupported`): `,,-1` loses every row (IndexError in BIT), `,,-3` loses the last one, `8,2,-2` is
+right, `-100,,-2` would slice five rows although nothing is selected (BIT writes nothing: `count()` is 0); LIS raises as
+soon as its frame set is not empty. -/
+theorem conv_rows_neg_witnesses :
+    (convRowsSlice none none (some (-1)) 10 = .ok [] ∧ sliceIndices none none (some (-1)) 10 = .ok [9, 8, 7, 6, 5, 4, 3, 2, 1, 0] ∧
+      bitOutSlice none none (some (-1)) 10 = .ok .indexError) ∧
+    (convRowsSlice none none (some (-3)) 10 = .ok [9, 6, 3] ∧ sliceIndices none none (some (-3)) 10 = .ok [9, 6, 3, 0]) ∧
+    (bitOutSlice (some 8) (some 2) (some (-2)) 10 = .ok (.rows [8, 6, 4]) ∧ sliceIndices (some 8) (some 2) (some (-2)) 10 = .ok [8, 6, 4]) ∧
+    (convRowsSlice (some (-100)) none (some (-2)) 10 = .ok [9, 7, 5, 3, 1] ∧ sliceIndices (some (-100)) none (some (-2)) 10 = .ok [] ∧
+      bitOutSlice (some (-100)) none (some (-2)) 10 = .ok (.rows [])) ∧
+    (lisOutSlice [5, 5] (some 8) (some 2) (some (-2)) 10 = .ok .planError ∧
+      lisOutSlice [2, 2, 2, 2, 2] (some 8) (some 2) (some (-2)) 10 = .ok (.rows [4, 6, 8]) ∧
+      lisOutSlice [5, 5] (some 5) (some 4) (some (-3)) 10 = .ok (.rows []) ∧
+      sliceIndices (some 5) (some 4) (some (-3)) 10 = .ok [5] ∧ lisOutSlice [7, 7, 6] (some 4) (some 10) (some 2) 20 = .ok (.rows [4, 6, 8])) := by
+  decide
+
+/-- **LIS, negative step, exactly**: with `l = range(first, last+1, step)` (no wrapping): nothing is written when `l` is
+empty, the plan raises when a data record holds two frames of `l`, otherwise the frames of `l` are written in *ascending*
+order. In no case with two or more selected frames is the Python selection (descending) written. -/
+theorem lis_neg_step_outcome (fpr : List Nat) (start stop step : Option Int) (n : Nat) (hst : step.getD 1 < 0) :
+    ∃ l, l = rangeList (TD.C04.pyBoundNeg start ((n : Int) - 1) n)
+              (step.getD 1 * Int.fdiv (TD.C04.pyBoundNeg stop (-1) n) (step.getD 1)) (step.getD 1) ∧
+      l.Pairwise (· > ·) ∧
+      lisOutSlice fpr start stop step n =
+        .ok (if l = [] then .rows [] else if sharesRecord fpr l then .planError else .rows l.reverse) := by
+  have hadj := TD.C04.slice_adjust_neg start stop step n hst
+  refine ⟨_, rfl, TD.C04.rangeList_pairwise_neg hst, ?_⟩
+  unfold lisOutSlice
+  rw [sliceLast_neg _ _ _ _ hst]
+  unfold sliceFirst sliceStep
+  rw [hadj]
+  simp only
+  have h1 : step.getD 1 * (TD.C04.pyBoundNeg stop (-1) n).fdiv (step.getD 1) - 1 + 1 =
+      step.getD 1 * (TD.C04.pyBoundNeg stop (-1) n).fdiv (step.getD 1) := by omega
+  rw [h1]
+  have hlt : step.getD 1 < 1 := by omega
+  by_cases hz : rangeLen (TD.C04.pyBoundNeg start ((n : Int) - 1) n)
+      (step.getD 1 * (TD.C04.pyBoundNeg stop (-1) n).fdiv (step.getD 1)) (step.getD 1) = 0
+  · have : rangeList (TD.C04.pyBoundNeg start ((n : Int) - 1) n)
+        (step.getD 1 * (TD.C04.pyBoundNeg stop (-1) n).fdiv (step.getD 1)) (step.getD 1) = [] := by
+      unfold rangeList; rw [hz]; rfl
+    simp [hz, this]
+  · have : rangeList (TD.C04.pyBoundNeg start ((n : Int) - 1) n)
+        (step.getD 1 * (TD.C04.pyBoundNeg stop (-1) n).fdiv (step.getD 1)) (step.getD 1) ≠ [] := by
+      unfold rangeList
+      intro h
+      have := congrArg List.length h
+      simp at this
+      exact hz this
+    simp only [hz, if_false, hlt, if_true, this]
+    split <;> rfl
+
 /-! ## Non-vacuity -/
 example : convRowsSlice none none (some 3) 10 = .ok [0, 3, 6] ∧ sliceIndices none none (some 3) 10 = .ok ([0, 3, 6] ++ [9]) := by decide
 example : pyBound (none : Option Int) 0 10 < pyBound (none : Option Int) 10 10 ∧
@@ -310,5 +416,6 @@ example : convRowsSlice (some 4) (some 10) (some 2) 20 = .ok [4, 6, 8] := by dec
 example : convRowsSlice none none (some 3) 10 = .ok [0, 3, 6] ∧ sliceIndices none none (some 3) 10 = .ok [0, 3, 6, 9] := by decide
 example : convRowsSample 12 7 = .ok [0, 1, 2, 3, 4, 5] := by decide
 example : rp66StopIndexSlice none none (some 3) 10 = .ok 9 := by decide
+example : rp66RowsSlice (some 8) (some 2) (some (-2)) 10 = .ok [8, 6, 4] ∧ rp66StopIndexSlice (some 8) (some 2) (some (-2)) 10 = .ok 4 := by decide
 
 end TD.C11
